@@ -31,7 +31,8 @@ CONFIG = {
     "C14": dict(level="exploration", batches=[("hist/asan", "asan", "yaepsim", "hist", 0, 6000, 120000),
                                                ("hist/plain", "plain", "yaepsim", "hist", 0, 16000, 500000)]),
     "C15": dict(level="exploration", batches=[("hist/asan", "asan", "yaepsim", "hist", 1, 6000, 120000),
-                                               ("hist/plain", "plain", "yaepsim", "hist", 1, 16000, 500000)]),
+                                               ("hist/plain", "plain", "yaepsim", "hist", 1, 16000, 500000),
+                                               ("oom/plain", "plain", "yaepsim", "oom", 1, 6000, 120000)]),
     "C13": dict(level="exploration", batches=[("hist/asan", "asan", "yaepsim", "hist", 2, 6000, 120000),
                                                ("hist/plain", "plain", "yaepsim", "hist", 2, 16000, 500000)]),
     "C16": dict(level="exploration", batches=[("hist/asan", "asan", "yaepsim", "hist", 3, 6000, 120000),
